@@ -178,12 +178,40 @@ def run_case(case):
                 vios.append(dict(sig="value:zero:unlisted-guess", tags=tags, detail="F starts from T=%s although the current guess of the (unlisted) free horizon is 2.2" % np.round(got[5], 6).tolist()))
         outs.append(np.round(got[2], 7).tolist())
         if vios: break
+    # the same request again after an update of a value that is NOT an argument: the new function uses the new value
+    upd = next((u_ for u_ in ("pg", "v") if u_ not in args), None)
+    if not vios and upd is not None and (upd == "pg" or budget == "zero") and case.get("second", True):
+        newval = {"pg": 1.7, "v": -0.45}[upd]
+        try:
+            assign(ocp, s, upd, newval)
+            F2 = ocp.to_function("F", [arg_expr(ocp, s, a) for a in args], results(ocp, s))
+            vals = [values(a, 0) for a in args]
+            got = F2(*vals)
+            got = [np.array(g) for g in (got if isinstance(got, (list, tuple)) else [got])]
+            o3, s3 = build(meth, M, budget, variant)
+            assign(o3, s3, upd, newval)
+            for a, v_ in zip(args, vals):
+                assign(o3, s3, a, v_)
+            sol = o3.solve() if budget == "converge" else o3.solve_limited()
+            want = [np.atleast_2d(sol.value(o3.objective)), np.atleast_2d(sol.value(s3["v"]))]
+            tol = 1e-6 if budget == "converge" else 1e-9
+            for nm, g_, w_ in zip(("objective", "variable"), (got[2], got[3]), want):
+                if not NL.close(np.atleast_2d(g_), w_, tol):
+                    vios.append(dict(sig="stale:second-function:%s" % nm, tags=tags + ["updated=%s" % upd], detail="after set_%s of the unlisted %s a second to_function with the same arguments gives %s = %s, the pipeline gives %s" % ("value" if upd == "pg" else "initial", upd, nm, np.round(g_, 6).tolist(), np.round(w_, 6).tolist())))
+                    break
+            evals += 1
+        except Exception as e:
+            fr = core.rockit_frame(sys.exc_info()[2])
+            if fr is None and not isinstance(e, (RuntimeError, AssertionError, ValueError)):
+                raise
+            if budget != "converge" or fr is not None:
+                vios.append(dict(sig="exception:second-function:%s" % (fr or type(e).__name__), tags=tags, detail="%s: %s" % (type(e).__name__, str(e)[:200])))
     return dict(violations=vios, evaluations=max(evals, 1), traces=1 + evals, transitions=len(combos), outcome=explore.sha([case, outs]), nontrivial=evals > 0,
                 counts=dict(inconclusive=inconclusive), sample=dict(case=case, combos=len(combos)))
 
 
 def describe(tier):
     return dict(
-        rule="strictly convex OCP (linear 2-state dynamics with a matrix and a vector parameter, a global and a per-interval parameter, a global variable, quadratic cost, N=3) x method {MS M=1/2, SS, DC M=1/2} x every ordered argument list of length <=%d over {value(global parameter), sampled per-interval parameter, concatenation vec(A);b of a matrix and a vector parameter, sampled state guess, sampled control guess, valued variable guess, sampled include_last variable guess}; a free-horizon variant with a user guess of T that is not an argument, or is one (value(T)) x the full product of a 3-value alphabet per argument x solver budget {converge (tol 1e-11), zero iterations (returns the start point: decides the initial-guess arguments)}: every output of F (sampled states, sampled controls, objective, variable) equals the result of a fresh OCP on which the same values are assigned with set_value / set_initial, solved, and read with sol.sample / sol.value" % (3 if tier == "thorough" else 2),
+        rule="strictly convex OCP (linear 2-state dynamics with a matrix and a vector parameter, a global and a per-interval parameter, a global variable, quadratic cost, N=3) x method {MS M=1/2, SS, DC M=1/2} x every ordered argument list of length <=%d over {value(global parameter), sampled per-interval parameter, concatenation vec(A);b of a matrix and a vector parameter, sampled state guess, sampled control guess, valued variable guess, sampled include_last variable guess}; a free-horizon variant with a user guess of T that is not an argument, or is one (value(T)) x the full product of a 3-value alphabet per argument x solver budget {converge (tol 1e-11), zero iterations (returns the start point: decides the initial-guess arguments)}: after the product, a value that is not an argument (the global parameter, else the variable's guess) is updated on the same Ocp and the same request is made again: the second function reflects the update; every output of F (sampled states, sampled controls, objective, variable) equals the result of a fresh OCP on which the same values are assigned with set_value / set_initial, solved, and read with sol.sample / sol.value" % (3 if tier == "thorough" else 2),
         bound="argument lists of length <=%d; 3 values per argument" % (3 if tier == "thorough" else 2),
         assumptions=["ipopt is deterministic for a fixed NLP and start point", "a non-converged 'converge' run is inconclusive (counted)"])
